@@ -1092,3 +1092,10 @@ func init() {
 		},
 	})
 }
+
+// rule addenda (rounds 9-12): what the evidence says about the coverage of a run
+func init() {
+	if p := registry["C18"]; p != nil {
+		p.Rule += " Formats of 250..257, 300 and 1000 literal bytes; the text of a name is read through Name(), String() and %v, which must agree."
+	}
+}
